@@ -1,5 +1,5 @@
 import Driver.Codec
-import LopdfModel.Model.Sink
+import LopdfModel.Model.SaveSink
 namespace Lopdf.Driver.C19
 open Lopdf Lopdf.Codec
 
@@ -27,6 +27,39 @@ def handle (op : String) (args : List String) : Option String :=
       let r := saveRun cs rs.flatten
       (if r.ok then "ok " else "err ") ++ toString r.delivered.length
     | _, _ => "bad-op"
+  | "c19_save" =>
+    -- c19_save table|stream <maxId> <version-hex> <mark-hex> <prev-hex|-> <trailer> <k> (<num> <gen> <obj>)* ; <script-token>* ; <chunk-hex>*
+    -- -> ok|err <delivered-len> <maxId held afterwards> <trailer held afterwards>
+    --    the recorded requests (the previous file first, for an incremental save) must concatenate to the model's bytes and
+    --    have a request boundary at the model's mutation point
+    some <| match args with
+    | kind :: mx :: ver :: mark :: prev :: rest =>
+      match mx.toNat?, bytesOfHex ver, bytesOfHex mark, bytesOfHex prev, parseObj rest with
+      | some maxId, some version, some bm, some pv, some (.dict tr, k :: rest') =>
+        match k.toNat?.bind (fun k => parseObjects k rest') with
+        | some (os, ";" :: tail) =>
+          let script := tail.takeWhile (· ≠ ";")
+          let chunks := (tail.dropWhile (· ≠ ";")).drop 1
+          match script.mapM parseResp, chunks.mapM bytesOfHex with
+          | some rs, some cs =>
+            let d : SDoc := { version := version, binaryMark := bm, trailer := tr, objects := os, maxId := maxId,
+                              xrefKind := if kind = "stream" then .stream else .table }
+            let pre := pv ++ (match pv.getLast? with | none => [] | some b => if b = 10 then [] else [10])
+            match saveFrom pre d with
+            | none => "err-mark"
+            | some (bytes, d') =>
+              if cs.flatten != bytes then "requests-differ-from-model-bytes" else
+              match splitRequests cs (mutationOffset pre d) with
+              | none => "no-request-boundary-at-mutation-point"
+              | some (before, after) =>
+                let r := saveSink before after rs.flatten
+                let held := docAfter d d' r
+                (if r.ok then "ok " else "err ") ++ toString r.delivered.length
+                  ++ " " ++ toString held.maxId ++ " " ++ showObj (.dict held.trailer)
+          | _, _ => "bad-op"
+        | _ => "bad-op"
+      | _, _, _, _, _ => "bad-op"
+    | _ => "bad-op"
   | _ => none
 
 end Lopdf.Driver.C19
